@@ -268,6 +268,46 @@ Theorem C02_pop_step_built :
 Proof. exact pop_step_built. Qed.
 Print Assumptions C02_pop_step_built.
 
+(** The same two theorems with the graph obtained from the definitions WITH THEIR FUNCTION SIGNATURES (Compose/FromDictState.v,
+    notations in Props/C01.v): the only hypothesis on the graph side is that the modelled [from_dict] (C15) accepted them. *)
+From Leaspy Require Dag.FromDict.
+From Leaspy Require Import Compose.FromDictState Compose.FromDictRevert.
+
+Theorem C02_full_revert_from_definitions :
+  forall (V : Type) (hv : nat -> V) (ax : nat -> bool) (fs : nat -> list V -> V) (ds : list FromDict.vdef)
+         (r : DagModel.dag) (v0 : V) (fx chk : bool),
+    FromDict.from_dict ds = FromDict.FOk r -> fx = true \/ chk = true ->
+  forall (st : state V) (i : nat) (o : option V) (reads : list nat),
+    Good (graph_from_definitions V hv ax fs ds r v0) st -> mode st <> None ->
+    i < gn (graph_from_definitions V hv ax fs ds r v0) ->
+    settable (graph_from_definitions V hv ax fs ds r v0) i = true ->
+    let st1 := fst (set_state (graph_from_definitions V hv ax fs ds r v0) fx st i o) in
+    let st2 := gets (graph_from_definitions V hv ax fs ds r v0) st1 reads in
+    let st3 := fst (revert_state st2) in
+    snd (revert_state st2) = Done /\
+    (forall j w, values st j = Some w -> values st3 j = Some w) /\
+    (forall j, In j (i :: desc (graph_from_definitions V hv ax fs ds r v0) i) -> values st3 j = values st j) /\
+    (forall j, linked (graph_from_definitions V hv ax fs ds r v0) j = false -> values st3 j = values st j) /\
+    fork st3 = None /\ mode st3 = mode st /\ Good (graph_from_definitions V hv ax fs ds r v0) st3 /\
+    (forall j, snd (get (graph_from_definitions V hv ax fs ds r v0) (values st3) j) =
+               snd (get (graph_from_definitions V hv ax fs ds r v0) (values st) j)).
+Proof. exact full_revert_from_definitions. Qed.
+Print Assumptions C02_full_revert_from_definitions.
+
+Theorem C02_pop_step_from_definitions :
+  forall (V M IX : Type) (hv : nat -> V) (ax : nat -> bool) (fs : nat -> list V -> V) (ds : list FromDict.vdef)
+         (r : DagModel.dag) (v0 : V) (sm : sem V M IX) (fx chk : bool),
+    FromDict.from_dict ds = FromDict.FOk r -> fx = true \/ chk = true ->
+  forall decide x reads blks (st st' : state V),
+    sim (graph_from_definitions V hv ax fs ds r v0) st st' -> mode st <> None ->
+    (forall a, In a (snd (pop_step (graph_from_definitions V hv ax fs ds r v0) sm fx decide x reads st blks)) -> a <> None) ->
+    sim (graph_from_definitions V hv ax fs ds r v0)
+        (fst (pop_step (graph_from_definitions V hv ax fs ds r v0) sm fx decide x reads st blks))
+        (pop_accepted (graph_from_definitions V hv ax fs ds r v0) sm fx x st' blks
+           (snd (pop_step (graph_from_definitions V hv ax fs ds r v0) sm fx decide x reads st blks))).
+Proof. exact pop_step_from_definitions. Qed.
+Print Assumptions C02_pop_step_from_definitions.
+
 (** [F_mix] from the op-kind semantics, node function by node function: for ANY op-kind, any number of parents, any
     selection pattern — the row-local kinds because row j of the result depends on row j of the per-individual arguments
     only, the others because they deliver a population value, which the selection refuses. *)
